@@ -315,6 +315,8 @@ func c12Sequences(u *vfUnit) {
 		u.Violation("session-close", msg, nil)
 	}
 	c12CloseOnLostConnection(u, sc, cfgLabel, dir, store)
+	c12CloseWriteReportedFailed(u, sc, cfgLabel, dir, store)
+	c12SharedWriteTo(u, sc, cfgLabel, dir, store, P)
 	if kind == vfRS {
 		c12StreamLikeFiles(u, sc, cfgLabel, store, P, cr, fst)
 	}
@@ -426,6 +428,205 @@ func c12CloseOnLostConnection(u *vfUnit, sc vfSrvCfg, cfgLabel, dir string, stor
 	}
 	sess.Close()
 }
+
+// c12CloseWriteReportedFailed: the transport reports the write of the CLOSE request as failed, once (with nothing
+// or with all of it delivered), and keeps working. Whatever value the failure has (interrupted, temporary, timeout,
+// end-of-file, ...): at most one CLOSE for the handle is on the wire, nothing carrying the handle follows, and the
+// File is closed.
+func c12CloseWriteReportedFailed(u *vfUnit, sc vfSrvCfg, cfgLabel, dir string, store *vfStore) {
+	pool := vfFaultPool()
+	for k := 0; k < 4; k++ {
+		pi := (u.Index*4 + k) % (2 * len(pool))
+		ferr, full := pool[pi%len(pool)], pi >= len(pool)
+		p := fmt.Sprintf("/trans%d", k)
+		if sc.Kind == vfOS {
+			p = filepath.Join(dir, fmt.Sprintf("trans%d", k))
+			os.WriteFile(p, []byte("0123456789"), 0o644)
+		} else {
+			store.CloseErr = nil
+			store.Put(p, []byte("0123456789"))
+		}
+		sess, err := vfConnect(sc, vfPipeOpts{})
+		if err != nil {
+			u.Inconclusive("connect: %v", err)
+			return
+		}
+		f, err := sess.C.OpenFile(p, os.O_RDWR)
+		if err != nil {
+			u.Violation("open-failed", cfgLabel+": "+err.Error(), nil)
+			sess.Close()
+			return
+		}
+		f.Read(make([]byte, 3))
+		label := fmt.Sprintf("%s/close-write-reported-failed(%v, delivered=%v)", cfgLabel, ferr, full)
+		handle := f.handle
+		var mu sync.Mutex
+		var fr vfFramer
+		closes, after := 0, 0
+		sess.Ctl.Tap(vfC2S, func(b []byte) {
+			mu.Lock()
+			defer mu.Unlock()
+			for _, body := range fr.Feed(b) {
+				q, err := vfParse(body, false)
+				if err != nil {
+					continue
+				}
+				if q.Type == rfClose && q.Handle == handle {
+					closes++
+				} else if closes > 0 && q.Handle == handle && q.Handle != "" {
+					after++
+				}
+			}
+		})
+		sess.Ctl.TransientFailWrite(vfC2S, 1, ferr, full)
+		var cerr error
+		if w, dump := vfAwait(vfGo(func() { cerr = f.Close() }), 60*time.Second); w != vfDone {
+			if w == vfStuck {
+				u.Violation("close-hangs-after-write-error", label+": Close does not return\n"+vfTrim(dump, 2000), nil)
+			} else {
+				u.Inconclusive("%s: wall-clock cap", label)
+			}
+			sess.sEnd.ForceClose()
+			sess.cEnd.ForceClose()
+			return
+		}
+		_, e1 := f.Read(make([]byte, 4))
+		_, e2 := f.WriteAt([]byte("x"), 0)
+		_, e4 := f.Stat()
+		e5 := f.Close()
+		for i, e := range []error{e1, e2, e4, e5} {
+			u.Count("closed_method_checks", 1)
+			if !errors.Is(e, os.ErrClosed) {
+				u.Violation("closed-file-method-after-write-error:"+[]string{"Read", "WriteAt", "Stat", "Close"}[i], fmt.Sprintf("%s: %s on the closed File returned %v instead of os.ErrClosed", label, []string{"Read", "WriteAt", "Stat", "Close"}[i], e), nil)
+			}
+		}
+		mu.Lock()
+		nc, na := closes, after
+		mu.Unlock()
+		// (a request the transport did not take may be written again; one it did take may not)
+		if nc > 1 || (full && nc != 1) || na != 0 {
+			u.Violation("close-requests-on-wire-after-write-error", fmt.Sprintf("%s: %d CLOSE requests for the handle reached the wire and %d later requests carry the handle", label, nc, na), nil)
+		}
+		if cerr == nil && nc == 0 {
+			u.Violation("close-nil-after-write-error", label+": Close returned nil although no CLOSE request reached the wire", nil)
+		}
+		u.Count("closes_with_write_reported_failed", 1)
+		u.SetAdd("write_failure_values", fmt.Sprintf("%T/%v/%v", ferr, ferr, full))
+		sess.Ctl.Tap(vfC2S, nil)
+		sess.Close()
+	}
+}
+
+// c12SharedWriteTo: several goroutines call WriteTo on one File at the same time. Each call starts at the offset
+// current when it takes its turn and advances it by what it transferred, so whatever the order the calls take
+// effect in: the sinks together receive the bytes from the starting offset to the end exactly once, each sink a
+// contiguous range, and the offset ends at the file's size.
+func c12SharedWriteTo(u *vfUnit, sc vfSrvCfg, cfgLabel, dir string, store *vfStore, P int) {
+	size := 6*P + 17
+	if size > 200000 {
+		size = 200000
+	}
+	data := vfPattern(uint64(9000+u.Index), 0, size)
+	p := "/sharedwt"
+	if sc.Kind == vfOS {
+		p = filepath.Join(dir, "sharedwt")
+		os.WriteFile(p, data, 0o644)
+	} else {
+		store.CloseErr = nil
+		store.Put(p, data)
+	}
+	sess, err := vfConnect(sc, vfPipeOpts{})
+	if err != nil {
+		u.Inconclusive("connect: %v", err)
+		return
+	}
+	defer sess.Close()
+	for round := 0; round < 3; round++ {
+		f, err := sess.C.Open(p)
+		if err != nil {
+			u.Violation("open-failed", cfgLabel+": "+err.Error(), nil)
+			return
+		}
+		start := int64(round * 7)
+		f.Seek(start, io.SeekStart)
+		nG := 2 + round%2
+		label := fmt.Sprintf("%s/shared-WriteTo/goroutines=%d/start=%d/size=%d", cfgLabel, nG, start, size)
+		sinks := make([]bytes.Buffer, nG)
+		ns := make([]int64, nG)
+		errs := make([]error, nG)
+		var wg sync.WaitGroup
+		gate := make(chan struct{})
+		for g := 0; g < nG; g++ {
+			wg.Add(1)
+			go func(g int) {
+				defer wg.Done()
+				<-gate
+				ns[g], errs[g] = f.WriteTo(c12Opaque2{&sinks[g]})
+			}(g)
+		}
+		close(gate)
+		if w, dump := vfAwait(vfGo(wg.Wait), 120*time.Second); w != vfDone {
+			if w == vfStuck {
+				u.Violation("shared-writeto-hangs", label+": the calls do not return\n"+vfTrim(dump, 2000), nil)
+			} else {
+				u.Inconclusive("%s: wall-clock cap", label)
+			}
+			return
+		}
+		var total int64
+		covered := make([]int, size)
+		problem := ""
+		for g := 0; g < nG; g++ {
+			if errs[g] != nil {
+				problem = fmt.Sprintf("call %d returned error %v", g, errs[g])
+			}
+			if ns[g] != int64(sinks[g].Len()) {
+				problem = fmt.Sprintf("call %d returned count %d but its sink received %d bytes", g, ns[g], sinks[g].Len())
+			}
+			total += ns[g]
+			b := sinks[g].Bytes()
+			if len(b) == 0 {
+				continue
+			}
+			// a contiguous range of the file: find it by the pattern (the pattern has no long repeats)
+			at := bytes.Index(data, b)
+			if bytes.HasPrefix(data[start:], b) {
+				at = int(start)
+			}
+			if at < 0 {
+				problem = fmt.Sprintf("call %d received %d bytes that are not a contiguous range of the file", g, len(b))
+				continue
+			}
+			for i := at; i < at+len(b); i++ {
+				covered[i]++
+			}
+		}
+		if problem == "" {
+			for i := int(start); i < size; i++ {
+				if covered[i] != 1 {
+					problem = fmt.Sprintf("byte %d of the file was transferred %d times", i, covered[i])
+					break
+				}
+			}
+		}
+		cur, serr := f.Seek(0, io.SeekCurrent)
+		if problem == "" && (serr != nil || cur != int64(size)) {
+			problem = fmt.Sprintf("the offset afterwards is %d (err %v), the file ends at %d", cur, serr, size)
+		}
+		if problem == "" && total != int64(size)-start {
+			problem = fmt.Sprintf("the calls transferred %d bytes together, %d lie between the starting offset and the end", total, int64(size)-start)
+		}
+		if problem != "" {
+			u.Violation("shared-writeto", fmt.Sprintf("%s: counts %v: %s", label, ns, problem), nil)
+		}
+		u.Count("shared_writeto_rounds", 1)
+		f.Close()
+	}
+}
+
+type c12Opaque2 struct{ w io.Writer }
+
+func (o c12Opaque2) Write(p []byte) (int, error) { return o.w.Write(p) }
 
 func c01Class12(v, P, C int) string {
 	switch {
